@@ -1,3 +1,368 @@
-"""gen_c13 — fault plans and the C13 child runner (see c13.py)."""
+"""
+gen_c13 — fault plans, cell generator and the child-side runner of C13 (see c13.py, gen_c14.py).
+
+A C13 job runs on a fresh real IPython shell (forked from the lab's zygote):
+
+  {"kind":"c13", "config":"terminal", "pf":true|false, "loglevel":"INFO"|"ERROR"|"DEBUG",
+   "db":"good"|"malformed"|"unreadable",
+   "cells":[{"kind":"run"|"complete", "text":...}, ...],
+   "faults":[{"site":..., "exc":..., "nth":n, "persist":bool}, ...],
+   "preseed":[[import statements to execute silently before cell i], ...]}      (reference runs only)
+
+With pf=true the auto-importer is enabled first and the fault injectors are installed around the
+operations the hooks perform; with pf=false the same cells run on plain IPython (after executing
+the `preseed` imports — the names the pyflyby run auto-imported successfully in that cell).
+"""
+from __future__ import annotations
+
+import ast
+import os
+import sys
+import traceback
+
+import gen_c14
+from gen_c14 import G
+
+EXC = ["Exception", "ValueError", "OSError", "SyntaxError", "AttributeError", "RecursionError"]
+SITES = ["db_load", "parse", "scan", "import_exec", "complete"]
+# model operation kind of each site
+SITE_KIND = {"db_load": "dbLoad", "db_parse": "dbLoad", "parse": "parse", "scan": "scan", "import_exec": "importExec",
+             "complete": "completion"}
+
+# the functions of _interactive.py that are the installed hooks, by the name visible on the stack
+HOOK_FUNCS = {
+    "ofind_with_autoimport": "ofind",
+    "visit": "astVisit",
+    "run_with_profiler_with_autoimport": "prun",
+    "global_matches_with_autoimport": "globalMatches",
+    "attr_matches_with_autoimport": "attrMatches",
+    "safe_execfile_with_autoimport": "safeExecfile",
+    "debugger_with_autoimport": "debuggerTB",
+    "run_with_debugger_with_autoimport": "runWithDebugger",
+    "reset_auto_importer_state": "resetCleanup",
+}
+
+
+class Injected:
+    """bookkeeping of all injectors of one child"""
+
+    def __init__(self, faults):
+        self.faults = [dict(f, calls=0, fired=0) for f in faults]
+        self.log = []          # (cell index, site, hook, fired exception class or None)
+        self.cell = -1
+        self.ncalls = {}
+        self.imported = []     # import statements pyflyby executed successfully
+        self.db_depth = 0
+
+    def hook_on_stack(self):
+        f = sys._getframe(2)
+        found = None
+        while f is not None:
+            co = f.f_code
+            if co.co_filename.endswith("_interactive.py") and co.co_name in HOOK_FUNCS:
+                if co.co_name != "visit" or "_AutoImporter_ast_transformer" in co.co_qualname:
+                    found = HOOK_FUNCS[co.co_name]    # outermost wins (keep walking)
+            f = f.f_back
+        return found
+
+    def enter(self, site):
+        hook = self.hook_on_stack()
+        inject_site = site
+        if site == "parse" and self.db_depth > 0:
+            site = "db_parse"           # parsing a database file is part of loading the database
+        self.ncalls[site] = self.ncalls.get(site, 0) + 1
+        fired = None
+        for f in self.faults:
+            if f["site"] != inject_site:
+                continue
+            f["calls"] += 1
+            if f["calls"] == f["nth"] or (f.get("persist") and f["calls"] > f["nth"]):
+                f["fired"] += 1
+                fired = f
+                break
+        self.log.append([self.cell, site, hook, fired["exc"] if fired else None])
+        if fired:
+            cls = getattr(__import__("builtins"), fired["exc"])
+            raise cls("INJECTED#%s#%s" % (inject_site, fired["exc"]))
+
+
+def install_injectors(inj):
+    import pyflyby._importdb as _importdb
+    import pyflyby._parse as _parse
+    import pyflyby._autoimp as _autoimp
+    import pyflyby._interactive as _interactive
+
+    def wrap(site, fn):
+        def wrapped(*a, **k):
+            inj.enter(site)
+            pos = len(inj.log) - 1
+            try:
+                return fn(*a, **k)
+            except Exception as e:
+                if "INJECTED#" not in str(e) and inj.log[pos][3] is None:
+                    inj.log[pos][3] = "natural:" + type(e).__name__
+                raise
+        wrapped.__name__ = getattr(fn, "__name__", site)
+        wrapped.__wrapped_by_verif__ = True
+        return wrapped
+
+    # database load
+    orig_get_default = _importdb.ImportDB.__dict__["get_default"].__func__
+
+    def get_default(cls, *a, **k):
+        inj.enter("db_load")
+        pos = len(inj.log) - 1
+        inj.db_depth += 1
+        try:
+            return orig_get_default(cls, *a, **k)
+        except Exception as e:
+            if "INJECTED#" not in str(e):
+                inj.log[pos][3] = "natural:" + type(e).__name__
+            raise
+        finally:
+            inj.db_depth -= 1
+    _importdb.ImportDB.get_default = classmethod(get_default)
+    # parse
+    _parse._parse_ast_nodes = wrap("parse", _parse._parse_ast_nodes)
+    # scope analysis
+    _autoimp.find_missing_imports = wrap("scan", _autoimp.find_missing_imports)
+    # import execution: `exec(stmt, scratch_namespace)` in _try_import resolves `exec` through the module globals
+    import builtins
+
+    def exec_recording(stmt, ns=None, *a):
+        inj.enter("import_exec")
+        pos = len(inj.log) - 1
+        try:
+            r = builtins.exec(stmt, ns, *a)
+        except Exception as e:
+            inj.log[pos][3] = "natural:" + type(e).__name__
+            raise
+        if isinstance(stmt, str):
+            inj.imported.append(stmt)
+        return r
+    _autoimp.exec = exec_recording
+    # completion lookup
+    _interactive.complete_symbol = wrap("complete", _interactive.complete_symbol)
+
+
+def _ns_view(ns):
+    out = {}
+    for k, v in ns.items():
+        if k.startswith("_") or k in ("In", "Out", "get_ipython", "exit", "quit", "open"):
+            continue
+        try:
+            import types
+            if isinstance(v, types.ModuleType):
+                out[k] = "module:" + v.__name__
+            elif callable(v):
+                out[k] = "callable:" + getattr(v, "__module__", "?") + "." + getattr(v, "__name__", "?")
+            else:
+                out[k] = type(v).__name__ + ":" + repr(v)[:40]
+        except Exception:
+            out[k] = "?"
+    return out
+
+
+def _bound_by_text(text):
+    """names the cell text itself binds at top level (so they are not auto-imports)"""
+    try:
+        tree = ast.parse(text)
+    except SyntaxError:
+        return set()
+    out = set()
+    for n in ast.walk(tree):
+        if isinstance(n, ast.Name) and isinstance(n.ctx, ast.Store):
+            out.add(n.id)
+        elif isinstance(n, (ast.FunctionDef, ast.ClassDef, ast.AsyncFunctionDef)):
+            out.add(n.name)
+        elif isinstance(n, ast.alias):
+            out.add((n.asname or n.name).split(".")[0])
+    return out
+
+
+def _import_stmt_for(name, v):
+    import types
+    if isinstance(v, types.ModuleType):
+        if v.__name__ == name:
+            return "import %s" % name
+        return "import %s as %s" % (v.__name__, name)
+    mod = getattr(v, "__module__", None)
+    if mod and getattr(v, "__name__", None) == name:
+        return "from %s import %s" % (mod, name)
+    return None
+
+
+def _normalise_out(s):
+    # IPython prints timing / memory addresses in a few magics; keep the text deterministic
+    import re
+    s = re.sub(r" at 0x[0-9a-f]+", " at 0x?", s)
+    s = re.sub(r"\x1b\[[0-9;]*m", "", s)
+    return s[-3000:]
+
+
 def run_c13(job):
-    return {"lab_error": "not implemented"}
+    ip, app = G["ip"], G["app"]
+    import pyflyby
+    from pyflyby._log import logger
+    root = G["root"]
+    pf = job.get("pf", True)
+    ident = gen_c14.Ident()
+    dbname = job.get("db", "good")
+    os.environ["PYFLYBY_PATH"] = os.path.join(root, "db_%s.py" % dbname)
+    logger.set_level(job.get("loglevel", "INFO"))
+    cap = gen_c14._capture()
+    exec("import zzq_mod_23 as zzq_bound", ip.user_ns)      # a module the user has already imported
+    inj = Injected(job.get("faults", []) if pf else [])
+    obs = dict(config=G["config"], pf=pf, cells=[])
+    if pf:
+        with cap:
+            try:
+                pyflyby.enable_auto_importer()
+                esc = None
+            except BaseException as e:
+                esc = type(e).__name__ + ": " + str(e)[:200]
+        obs["enable"] = dict(escaped=esc, importer=gen_c14.importer_view(), mv=gen_c14.model_view(ident),
+                             pf_log=_pf_log(cap))
+        install_injectors(inj)
+    preseed = job.get("preseed") or []
+    for i, cell in enumerate(job["cells"]):
+        inj.cell = i
+        lent = []
+        if not pf and i < len(preseed):
+            import builtins
+            before = set(ip.user_ns)
+            for stmt in preseed[i]:
+                try:
+                    exec(stmt, ip.user_ns)
+                except Exception:
+                    pass
+            if cell.get("ck") in ("run", "run_plain"):
+                # %run executes the script in its own namespace; lend it the pre-bound names through builtins
+                scratch = {}
+                for stmt in preseed[i]:
+                    try:
+                        exec(stmt, scratch)
+                    except Exception:
+                        pass
+                for k, v in scratch.items():
+                    if k != "__builtins__" and not hasattr(builtins, k):
+                        setattr(builtins, k, v)
+                        lent.append(k)
+        ns_before = _ns_view(ip.user_ns)
+        calls_before = dict(inj.ncalls)
+        n_imported_before = len(inj.imported)
+        r = dict(kind=cell["kind"], text=cell["text"])
+        esc = None
+        with cap:
+            try:
+                if cell["kind"] == "run":
+                    res = ip.run_cell(cell["text"], store_history=False)
+                    r["result"] = repr(res.result)[:200]
+                    for nm, e in (("err", res.error_in_exec), ("err_before", res.error_before_exec)):
+                        r[nm] = None if e is None else [type(e).__name__, str(e)[:200]]
+                elif cell["kind"] == "complete":
+                    text, matches = ip.complete(cell["text"])
+                    r["matches"] = sorted(matches)[:60]
+                else:
+                    raise ValueError(cell["kind"])
+            except BaseException as e:
+                esc = type(e).__name__ + ": " + str(e)[:200]
+        for k in lent:
+            import builtins
+            delattr(builtins, k)
+        r["escaped"] = esc
+        r["stdout"] = _normalise_out(gen_c14._strip_pf_lines(cap.stdout))
+        r["stderr"] = _normalise_out(gen_c14._strip_pf_lines(cap.stderr))
+        r["pf_log"] = _pf_log(cap)
+        ns_after = _ns_view(ip.user_ns)
+        r["ns_new"] = {k: v for k, v in ns_after.items() if ns_before.get(k) != v}
+        r["ns_gone"] = sorted(k for k in ns_before if k not in ns_after)
+        if pf:
+            r["auto_imported"] = sorted(set(inj.imported[n_imported_before:]))
+            r["importer"] = gen_c14.importer_view()
+            r["mv"] = gen_c14.model_view(ident)
+            r["site_calls"] = {k: v - calls_before.get(k, 0) for k, v in inj.ncalls.items() if v - calls_before.get(k, 0)}
+            r["trace"] = [t[1:] for t in inj.log if t[0] == i]
+        obs["cells"].append(r)
+    if pf:
+        obs["faults"] = inj.faults
+    return obs
+
+
+def _pf_log(cap):
+    out = []
+    for l in (cap.stdout + cap.stderr).splitlines():
+        if "[PYFLYBY]" in l:
+            out.append(l.split("[PYFLYBY]")[-1].replace("\x1b[0m", "").strip()[:200])
+    return out[:20]
+
+
+# ----------------------------------------------------------------------------
+# generators (harness side)
+# ----------------------------------------------------------------------------
+
+def gen_cell(rng, k, mods_dir):
+    """k: a counter that keeps the names of different cells apart"""
+    i = k % gen_c14.N_MODS
+    kinds = [
+        ("known", 6), ("known_fn", 2), ("print_known", 2), ("plain", 2), ("assign_use", 1), ("unknown", 2),
+        ("bad", 2), ("pinfo", 2), ("multi", 2), ("syntaxerr", 1), ("raise", 1), ("prun", 1), ("run", 2),
+        ("run_plain", 1), ("debug", 1), ("complete_global", 3), ("complete_attr", 3), ("complete_attr_bound", 1),
+        ("two_known", 1), ("autocall", 1),
+    ]
+    kind = rng.choices([a for a, _ in kinds], weights=[b for _, b in kinds])[0]
+    return make_cell(kind, i, k, mods_dir)
+
+
+def make_cell(kind, i, k, mods_dir):
+    run = lambda t: dict(kind="run", text=t, ck=kind)
+    if kind == "known":
+        return run(f"zzq_mod_{i}.VALUE")
+    if kind == "known_fn":
+        return run(f"zzq_fn_{i % gen_c14.N_FNS}()")
+    if kind == "print_known":
+        return run(f"print('v', zzq_mod_{i}.OTHER)")
+    if kind == "plain":
+        return run(f"{k} + 1")
+    if kind == "assign_use":
+        return run(f"zzq_x{k} = {k}\nzzq_x{k} * 2")
+    if kind == "unknown":
+        return run(f"zzq_unknown_{k}")
+    if kind == "bad":
+        return run(f"zzq_bad_{i % gen_c14.N_BAD}.x")
+    if kind == "pinfo":
+        return run(f"zzq_mod_{i}.VALUE?")
+    if kind == "multi":
+        return run(f"def zzq_f{k}():\n    return zzq_mod_{i}.VALUE\nzzq_f{k}()")
+    if kind == "syntaxerr":
+        return run("1 +")
+    if kind == "raise":
+        return run(f"raise KeyError('user {k}')")
+    if kind == "prun":
+        return run(f"%prun -q -T {mods_dir}/../out/prun_{k}.txt zzq_mod_{i}.VALUE")
+    if kind == "run":
+        return run(f"%run {mods_dir}/zzq_script.py")
+    if kind == "run_plain":
+        return run(f"%run {mods_dir}/zzq_script_plain.py")
+    if kind == "debug":
+        return run(f"%debug {k}+2")
+    if kind == "two_known":
+        return run(f"(zzq_mod_{i}.VALUE, zzq_mod_{(i + 1) % gen_c14.N_MODS}.VALUE)")
+    if kind == "autocall":
+        return run(f"zzq_mod_{i}.OTHER.upper()")
+    if kind == "complete_global":
+        return dict(kind="complete", text=f"zzq_cmp_{gen_c14.CMP[k % len(gen_c14.CMP)]}_", ck=kind)
+    if kind == "complete_attr":
+        return dict(kind="complete", text=f"zzq_mod_{i}.VAL", ck=kind)
+    if kind == "complete_attr_bound":
+        return dict(kind="complete", text="zzq_bound.VAL", ck=kind)
+    raise ValueError(kind)
+
+
+def gen_faults(rng, nmax=3):
+    n = rng.choice([0, 1, 1, 1, 2, 2, 3][: 4 + nmax])
+    out = []
+    for _ in range(n):
+        out.append(dict(site=rng.choice(SITES), exc=rng.choice(EXC), nth=rng.choice([1, 1, 1, 2, 2, 3]),
+                        persist=rng.random() < 0.4))
+    return out
